@@ -57,3 +57,11 @@ Proof.
   repeat (destruct Hin as [Hin|Hin]; [try discriminate; injection Hin as ? ?; subst; exact Hf|]). contradiction.
 Qed.
 Print Assumptions C01_security_access.
+
+(* ---- the code is the model (regenerated each run): Filesize(uncompressed, compressed, width).get_width(), executed on symbolic
+   arguments by tools/symtrans.py ---- *)
+From UDS Require Import Gen.Fn_Filesize Proofs.Tie_filesize Model.Svc_File.
+
+Theorem C01_code_filesize_width : forall u c w, fn_filesize_width u c w = (f <- mk_filesize u c w ;; ret (fs_width f)).
+Proof. exact tie_filesize_width. Qed.
+Print Assumptions C01_code_filesize_width.
